@@ -69,6 +69,18 @@ CLAIMS = {
   note="Assumed (specs/extern/goja.gvc): goja's abstract global table (Set/Get/Delete/GlobalObject), RunProgram does not assign globals for scripts in the statement's scope, Compile is a function of the source, Export/IsNaN/... as named; sync.Pool returns New() or a pooled VM. Concurrent mixes rest on C14's assumptions.",
   technique="contract-based deductive verification: map-iteration loop invariants with visited-set ghost, SMT; replay through in-package overlay tests",
   design_ref="§6 C20"),
+ "C11": dict(
+  category="proof",
+  text="Every method of idr.navigator (NodeType, LocalName, Prefix, NamespaceURL, Copy, MoveToRoot, MoveToParent, MoveToNextAttribute, MoveToChild, MoveToFirst, MoveToNext, MoveToPrevious, MoveTo) is proved to refine an abstract DOM-cursor specification written from the XPath data model under the abstraction 'attribute nodes are the leading children of their element': MoveToChild lands on the first non-attribute child (recursive spec function skipAttrs, loop invariant), MoveToFirst on the first non-attribute sibling (firstSib), MoveToNextAttribute walks exactly the leading attribute run, MoveToRoot returns to the query root, MoveTo only between navigators of the same root, names and namespace data are the node's own. On the construction side, the XML reader creates an element, then its attributes, each with one text child, named by Name.Local, with the namespace prefix given by the latest declaration of the URI (updateNamespaces, proved with a recursive lastDecl specification).",
+  note="Assumed: the xpath engine touches the document only through NodeNavigator (parametricity) and xmlquery's navigator satisfies the same abstract specification; engine semantics, comments/PIs (never created by idr). navigator.Value/InnerText (recursive closure) is not yet under contract. The attributes-first representation invariant over whole trees is established per token by the XML reader contracts, its induction over the token stream is not machine-checked. Known finding F16 (namespace prefix map is document-global, never un-scoped) is a limitation of the statement 'latest declaration wins' that the contract encodes as the code's behaviour; see DESIGN.md.",
+  technique="contract-based deductive verification: refinement of an abstract cursor specification, recursive spec functions, loop invariants, SMT",
+  design_ref="§6 C11"),
+ "C18": dict(
+  category="proof",
+  text="Proved: WrapEncoding, verified in the state right after its package initialiser has built the encoding table (symbolic execution of the initialiser, dynamic call resolved by case split over the table's closures), returns the input itself for an absent or utf-8 encoding, the input decoded with exactly charmap.ISO8859_1 for iso-8859-1 and exactly charmap.Windows1252 for windows-1252, and the input for anything else; a frame obligation shows only the initialiser ever writes a table of that type; NewTransform hands the schema handler StripBOM(WrapEncoding(input)) in that nesting (call-site assertion), fails when StripBOM fails, and otherwise returns a transform satisfying the object invariant.",
+  note="Assumed: x/text charmap decoders implement the named code pages byte for byte and are streaming homomorphisms; go-corelib StripBOM removes exactly one leading U+FEFF; everything the statement says about byte values lies in those assumptions. The JSON-schema enum that makes 'anything else' unreachable is not used.",
+  technique="contract-based deductive verification with symbolic package initialisation, SMT; SSA frame obligation",
+  design_ref="§6 C18"),
 }
 
 NOT_BUILT = "check not built yet in this session (planned, see DESIGN.md §6); not claimed until its obligations discharge on the unchanged tree"
